@@ -5,15 +5,11 @@ CONSTANTS
   T = {1, 2}
   MaxE = 4
   MaxG = 4
-  MaxOps = 9
+  MaxOps = 6
   Limit = 0
   FixSave = TRUE
   FixRecover = TRUE
   FixRelease = TRUE
-  SplitCleanup = FALSE
+  SplitCleanup = TRUE
 VIEW View
-INVARIANT AccountedEqualsLive
-INVARIANT Coherent
-INVARIANT LiveCachesManaged
-INVARIANT NoPoison
-PROPERTY CleanupBoundsSize
+ACTION_CONSTRAINT EmitEdge
